@@ -196,6 +196,14 @@ def observe(job):
         out["cases"].append(_case("s2n", False, lab, lab, int(c), ref, B, fparams))
     except Exception as ex:
         out["crashes"].append({"entry": "s2n", "exc": type(ex).__name__, "msg": str(ex)[:200], "diag": _diagnose(s, B, False)})
+    # (1b) string_to_node(evalf=True): numeric sub-expressions are evaluated to floats before the tree is built
+    try:
+        with contextlib.redirect_stdout(sink):
+            _, nodes, c = g.string_to_node(s, B, evalf=True)
+            lab = reading([str(l) for l in nodes.to_list(B)])
+        out["cases"].append(_case("s2n_evalf", False, lab, lab, int(c), ref, B, fparams))
+    except Exception as ex:
+        out["crashes"].append({"entry": "s2n_evalf", "exc": type(ex).__name__, "msg": str(ex)[:200], "diag": _diagnose(s, B, True)})
     # (2) fit_from_string: the relabelling, without and with replace_floats
     got = {}
     for rf in (False, True):
